@@ -1,8 +1,105 @@
-import PestModel.Model.PState
-/-! # C03 — placeholder until the proofs land. -/
-namespace PestModel.C03
-open PestModel.PS
+import PestModel.Model.PStateSpec
+import PestModel.Lemmas.PStateInv
+/-!
+# C03 — parser-state combinators are all-or-nothing and match exactly (part 1: combinators)
 
-theorem smoke : normalizeIndex (-1) 3 = some 2 := by decide
+Property theorems only; helper lemmas in `PestModel/Lemmas/PStateInv*.lean`.
+`run` is the executable model of `pest::ParserState` (every public operation; Rust panics are the
+outcome `panic`, model fuel exhaustion is `fuel`). All theorems hold for every program, input,
+fuel, call limit and error-detail setting, with and without `memchr`.
+-/
+namespace PestModel.C03
+open PestModel.PS PestModel.LineCol PestModel.Stack
+
+/-- The initial state is well formed. -/
+theorem new_wf (input : Str) (limit : Option Nat) (detail : Bool) : (PState.new input limit detail).WF := by
+  exact new_wf' input limit detail
+
+/-- Well-formedness (boundary position, stack invariant) is preserved by every program; the input,
+the look-ahead mode and the atomicity are the same after the call as before. -/
+theorem run_wf (cfg : Cfg) (fuel : Nat) (p : Prog) (s s' : PState) (hwf : s.WF)
+    (h : (run cfg fuel p s).state? = some s') :
+    s'.WF ∧ s'.input = s.input ∧ s'.lookahead = s.lookahead ∧ s'.atomicity = s.atomicity := by
+  have r := run_rel cfg fuel p s s' h
+  exact ⟨r.wf hwf, r.input, r.la, r.atom⟩
+
+/-- Snapshot discipline: every program leaves the saved snapshots of the stack exactly as they were
+(each combinator that takes a snapshot clears or restores it). -/
+theorem run_saved (cfg : Cfg) (fuel : Nat) (p : Prog) (s s' : PState) (hwf : s.WF)
+    (h : (run cfg fuel p s).state? = some s') :
+    (Stack.abs s'.stack).saved = (Stack.abs s.stack).saved := by
+  exact ((run_rel cfg fuel p s s' h).stk hwf.2).2
+
+/-- Tokens already in the queue are never removed or altered by a program, except that the tag of
+the very last one may be set (by `tag_node`). -/
+theorem run_queue (cfg : Cfg) (fuel : Nat) (p : Prog) (s s' : PState)
+    (h : (run cfg fuel p s).state? = some s') :
+    s.queue.length ≤ s'.queue.length ∧
+    s'.queue.take (s.queue.length - 1) = s.queue.take (s.queue.length - 1) ∧
+    (s'.queue.take s.queue.length).map QTok.eraseTag = s.queue.map QTok.eraseTag := by
+  have r := run_rel cfg fuel p s s' h
+  exact ⟨r.q.length, r.q.take_pred, r.q.take_erase⟩
+
+/-- Inside look-ahead no token is emitted, removed or tagged. -/
+theorem run_queue_lookahead (cfg : Cfg) (fuel : Nat) (p : Prog) (s s' : PState)
+    (hla : s.lookahead ≠ .none) (h : (run cfg fuel p s).state? = some s') : s'.queue = s.queue := by
+  exact (run_rel cfg fuel p s s' h).qla hla
+
+/-- **A failed sequence leaves the position, the emitted tokens and the stack exactly as they were.** -/
+theorem sequence_err_restores (cfg : Cfg) (fuel : Nat) (p : Prog) (s s' : PState) (hwf : s.WF)
+    (h : run cfg fuel (.sequence p) s = .err s') :
+    s'.pos = s.pos ∧ s'.queue = s.queue ∧ stackEq s'.stack s.stack := by
+  exact sequence_err_restores' cfg fuel p s s' hwf h
+
+/-- **Any look-ahead, whether it succeeds or fails, leaves position, tokens, stack and the
+look-ahead mode exactly as they were.** -/
+theorem lookahead_restores (cfg : Cfg) (fuel : Nat) (positive : Bool) (p : Prog) (s s' : PState)
+    (hwf : s.WF) (h : (run cfg fuel (.lookahead positive p) s).state? = some s') :
+    s'.pos = s.pos ∧ s'.queue = s.queue ∧ stackEq s'.stack s.stack ∧ s'.lookahead = s.lookahead := by
+  exact lookahead_restores' cfg fuel positive p s s' hwf h
+
+/-- **A rule that succeeds outside look-ahead and atomic mode emits one balanced start/end pair
+around what its body emitted and consumed** (matching indices, start position = position at entry,
+end position = position at exit). -/
+theorem rule_ok_emits (cfg : Cfg) (fuel : Nat) (r : Nat) (p : Prog) (s s' : PState)
+    (hla : s.lookahead = .none) (hat : s.atomicity ≠ .atomic)
+    (h : run cfg fuel (.rule r p) s = .ok s') :
+    ∃ inner, s'.queue = s.queue ++ [.start (s.queue.length + 1 + inner.length) s.pos] ++ inner ++
+      [.end_ s.queue.length r none s'.pos] := by
+  exact rule_ok_emits' cfg fuel r p s s' hla hat h
+
+/-- A rule that fails outside look-ahead and atomic mode leaves the token queue as it was. -/
+theorem rule_err_truncates (cfg : Cfg) (fuel : Nat) (r : Nat) (p : Prog) (s s' : PState)
+    (hla : s.lookahead = .none) (hat : s.atomicity ≠ .atomic)
+    (h : run cfg fuel (.rule r p) s = .err s') : s'.queue = s.queue := by
+  exact rule_err_truncates' cfg fuel r p s s' hla hat h
+
+/-- In look-ahead or atomic mode a rule adds no token of its own: the queue afterwards is the queue
+its body left. -/
+theorem rule_silent (cfg : Cfg) (fuel : Nat) (r : Nat) (p : Prog) (s s' : PState)
+    (hmode : s.lookahead ≠ .none ∨ s.atomicity = .atomic)
+    (h : (run cfg (fuel + 1) (.rule r p) s).state? = some s') :
+    s' = s ∨ ∃ s1 ns, s1.queue = s.queue ∧ (run cfg fuel p s1).state? = some ns ∧ s'.queue = ns.queue := by
+  exact rule_silent' cfg fuel r p s s' hmode h
+
+/-- `restore_on_err` undoes every stack change of a failed body. -/
+theorem restoreOnErr_restores (cfg : Cfg) (fuel : Nat) (p : Prog) (s s' : PState) (hwf : s.WF)
+    (h : run cfg fuel (.restoreOnErr p) s = .err s') : stackEq s'.stack s.stack := by
+  exact restoreOnErr_restores' cfg fuel p s s' hwf h
+
+/-- `stack_push` pushes exactly the span its body consumed. -/
+theorem stackPush_pushes_span (cfg : Cfg) (fuel : Nat) (p : Prog) (s s' : PState)
+    (h : run cfg (fuel + 1) (.stackPush p) s = .ok s') :
+    ∃ s1 ns str, s1.pos = s.pos ∧ run cfg fuel p s1 = .ok ns ∧ s'.pos = ns.pos ∧
+      slice? s'.input s.pos s'.pos = some str ∧ s'.stack.cache = str :: ns.stack.cache := by
+  exact stackPush_pushes_span' cfg fuel p s s' h
+
+/-- No program that avoids `stack_peek`/`stack_pop` (documented to panic on an empty stack) can
+panic with error detail off: every slice, index, `unwrap`, `unreachable!` and `usize` subtraction of
+the modelled code is safe on well-formed states. (With error detail on see C15.) -/
+theorem run_no_panic (cfg : Cfg) (fuel : Nat) (p : Prog) (s : PState) (hwf : s.WF)
+    (hclosed : cfg.closed p) (hnp : cfg.noPeekPop p) (hdet : s.pa.enabled = false) :
+    run cfg fuel p s ≠ .panic := by
+  exact run_no_panic' cfg fuel p s hwf hclosed hnp hdet
 
 end PestModel.C03
